@@ -22,6 +22,7 @@ import Gostatix.Model.Redis
 import Gostatix.Model.Equals
 import Gostatix.Model.JsonDriver
 import Gostatix.Model.RedisDriver
+import Gostatix.Model.LuaDriver
 open Gostatix
 
 abbrev P := Except String
@@ -395,6 +396,7 @@ def handle (toks : List String) : P String := do
     else if op.startsWith "size." then handleSize (op :: rest)
     else if op.startsWith "json." then Gostatix.Json.handle (op :: rest)
     else if op.startsWith "rt." then Redis.handleTie (op :: rest)
+    else if op.startsWith "lua." then Gostatix.Lua.Driver.handle (op :: rest)
     else throw s!"unknown-op:{op}"
   | [] => throw "empty"
 
